@@ -432,7 +432,7 @@ fn opt_allow(rl: &mut Option<RateLimiter>, now: Instant) -> (res: bool)
 """)],
                   ensures=K.BAR_DRAW["ensures"] + [
                       ("frame-rest", "rest_same(*old(self), *final(self))"),
-                      ("C04-C05-C06-draw-effect",
+                      ("C04-C05-C06-C13-draw-effect",
                        "draw_effect(old(self).draw_target, final(self).draw_target, force_draw || old(self).state.finished(), now, "
                        "(if old(self).state.status is DoneHidden { Seq::<LineType>::empty() } else { match old(self).draw_target.own() { Some(x) => fs_lines(old(self).style, old(self).state, x.0.w as u16), None => Seq::<LineType>::empty() } }), r)"),
                   ])),
